@@ -220,6 +220,9 @@ func c07Run(c *fx.Ctx) {
 			c07Bulk(c, fb, false, in)
 		}
 		c.Distinct("nontrivial", fmt.Sprintf("f2a-%d", a))
+		if a%64 == 7 {
+			c.Sample(fmt.Sprintf("family 2: 81 00 %02x xx for all xx, rules on and off, through the CBE decoder and unmarshaler", a))
+		}
 	}
 	for _, a := range classes {
 		for _, b := range classes {
